@@ -283,9 +283,9 @@ static void marshal_one_def(MarshalState *st, JanetFuncDef *def, int flags) {
     if (def->flags & JANET_FUNCDEF_FLAG_HASSYMBOLMAP)
         pushint(st, def->symbolmap_length);
     if (def->flags & JANET_FUNCDEF_FLAG_HASNAME)
-        marshal_one(st, janet_wrap_string(def->name), flags);
+        marshal_one(st, janet_wrap_string(def->name), flags + 1);
     if (def->flags & JANET_FUNCDEF_FLAG_HASSOURCE)
-        marshal_one(st, janet_wrap_string(def->source), flags);
+        marshal_one(st, janet_wrap_string(def->source), flags + 1);
 
     /* marshal constants */
     for (int32_t i = 0; i < def->constants_length; i++)
@@ -649,7 +649,8 @@ static void marshal_one(MarshalState *st, Janet x, int flags) {
             pushint(st, func->def->environments_length);
             /* Mark seen before reading def */
             MARK_SEEN();
-            marshal_one_def(st, func->def, flags);
+            /* Same depth accounting as unmarshal_one, so that whatever can be marshalled can be unmarshalled */
+            marshal_one_def(st, func->def, flags + 1);
             for (int32_t i = 0; i < func->def->environments_length; i++)
                 marshal_one_env(st, func->envs[i], flags + 1);
             return;
